@@ -192,6 +192,8 @@ impl Array {
         if i >= self.arr.len() {
             self.arr.resize_with(i + 1, Default::default);
         }
+        #[cfg(feature = "verif")]
+        crate::verif::pre("val.index_arr_or_insert", i < self.arr.len());
         unsafe { self.arr.get_mut(i).unchecked_unwrap() }
     }
     fn index_dict_or_insert(&mut self, k: DictKey) -> &mut Val {
@@ -250,6 +252,8 @@ impl Val {
             return;
         }
         let old = std::mem::replace(self, Array::new().into());
+        #[cfg(feature = "verif")]
+        crate::verif::pre("val.array_coerce", self.is_array());
         if !old.is_undefined() {
             match self {
                 Val::Array(a) => Rc::make_mut(a).push(iter::once(old)),
@@ -260,6 +264,8 @@ impl Val {
 
     pub fn push(&mut self, vals: impl Iterator<Item = Val>) -> Result<(), ValError> {
         self.array_coerce();
+        #[cfg(feature = "verif")]
+        crate::verif::pre("val.push", self.is_array());
         match self {
             Val::Array(a) => Ok(Rc::make_mut(a).push(vals)),
             _ => unsafe { unreachable_unchecked() },
@@ -393,6 +399,8 @@ impl Val {
         if self.is_null() {
             *self = Val::Number(0.0);
         }
+        #[cfg(feature = "verif")]
+        crate::verif::pre("val.inc", !self.is_null());
         match self {
             Val::Null => unsafe { unreachable_unchecked() },
 
@@ -584,6 +592,10 @@ impl Val {
                         _ => return Err(ValError::InvalidArrayElementForJoin(val.clone())),
                     }
                 }
+                #[cfg(feature = "verif")]
+                crate::verif::pre("val.join", a.val_iter().all(|val| val.is_string()));
+                #[cfg(feature = "verif")]
+                crate::verif::dict_order("join", || a.dict.keys().map(|k| ToString::to_string(k)));
                 let string = a
                     .val_iter()
                     .map(|val| match val {
